@@ -1,4 +1,5 @@
 pub mod data;
 pub mod expr;
 pub mod history;
+pub mod soup;
 pub mod wxml;
